@@ -34,5 +34,12 @@ theorem gen_agraph_writers :
     notifySites = [("command_array.setter", "unconditional"), ("mutable_command_array", "unconditional")] ∧
     agraphNotifyModification = "self._modified = True ; self._fitness = None ; self._fit_set = False" := by decide
 
+/-- the state of an equation object is exactly what the model (`AG.St`) carries: the command array, the cached simplified
+stack and constants with their two flags, the stored fitness with its flag, and the simplification switch; a further
+attribute (say, a cache of printed strings) would be state the model does not have -/
+theorem gen_agraph_attributes :
+    agraphAttributes = ["_command_array", "_fit_set", "_fitness", "_modified", "_needs_opt", "_simplified_command_array",
+      "_simplified_constants", "_use_simplification", "command_array"] := by decide
+
 end C18Facts
 end Bingo
